@@ -80,11 +80,11 @@ Handler *makeHandler(const Val &n, Log *log, QObject *parent)
     int pk = int(n.at(3).asInt()), pid = int(n.at(4).asInt());
     return pk == 0 ? new Handler(parent) : static_cast<Handler *>(new InstrHandler(log, pk, pid, parent));
 }
-void populate(Handler *h, const Val &n, Log *log)
+typedef QMap<int, InstrMiddleware *> MwById;      // an id that occurs again anywhere in the tree is the same object attached again
+void populate(Handler *h, const Val &n, Log *log, MwById &byId)
 {
     int pid = int(n.at(4).asInt());
     auto addMiddleware = [&]() {
-        QMap<int, InstrMiddleware *> byId;      // an id that occurs again in the same handler is the same object attached again
         for (auto &m : n.at(0).l) {
             int id = int(m.at(0).asInt());
             if (!byId.contains(id)) byId.insert(id, new InstrMiddleware(log, id, int(m.at(1).asInt()), h));
@@ -99,7 +99,7 @@ void populate(Handler *h, const Val &n, Log *log)
             Handler *child = makeHandler(s.at(1), log, h);
             bool attachFirst = (int(s.at(1).at(4).asInt()) & 2) != 0;
             if (attachFirst) h->addSubHandler(QRegExp(QString::fromUtf8(s.at(0).asBytes())), child);
-            populate(child, s.at(1), log);
+            populate(child, s.at(1), log, byId);
             if (!attachFirst) h->addSubHandler(QRegExp(QString::fromUtf8(s.at(0).asBytes())), child);
         }
     };
@@ -110,71 +110,13 @@ void populate(Handler *h, const Val &n, Log *log)
 Handler *build(const Val &n, Log *log, QObject *parent)
 {
     Handler *h = makeHandler(n, log, parent);
-    populate(h, n, log);
+    MwById byId;
+    populate(h, n, log, byId);
     return h;
 }
 }
 
-// one connection driven by an op schedule against [server]; steppable so that several connections can be interleaved
-struct ConnRunner {
-    Server *server;
-    Val *logp;
-    SimTcp *tcp;
-    QPointer<SimTcp> tcpGuard;
-    QPointer<Socket> sock;
-    long long opIndex = 0;
-
-    ConnRunner(Server *srv, Val *log) : server(srv), logp(log), tcp(new SimTcp), tcpGuard(tcp)
-    {
-        Val *l = logp;
-        tcp->onWrite = [l](const QByteArray &b) { l->add(Val::List({Val::Int(5), Val::Bytes(b)})); };
-        tcp->onClose = [l]() { l->add(Val::List({Val::Int(6)})); };
-    }
-    qint64 avail() const { return (sock && sock->isOpen()) ? sock->bytesAvailable() : -1; }
-    void step(const Val &op)
-    {
-        Val &log = *logp;
-        log.add(Val::List({Val::Int(20), Val::Int(opIndex++)}));
-        switch (op.at(0).asInt()) {
-        case 0: if (sock) { if (tcpGuard) tcp->feed(op.at(1).asBytes()); } else if (tcpGuard) tcp->queue(op.at(1).asBytes()); break;
-        case 1: if (tcpGuard && sock) tcp->ack(op.at(1).asInt()); break;
-        case 2: if (tcpGuard && sock) tcp->peerFin(); break;
-        case 3: QCoreApplication::sendPostedEvents(nullptr, QEvent::MetaCall); break;
-        case 4:
-            if (!sock && tcpGuard) {
-                QSet<Socket *> before = server->d->findChildren<Socket *>().toSet();
-                server->d->process(tcp);
-                Socket *s = nullptr;
-                for (Socket *x : server->d->findChildren<Socket *>()) if (!before.contains(x)) s = x;
-                if (!s) throw std::runtime_error("nosocket");
-                sock = s;
-                Val *l = logp;
-                ConnRunner *self = this;
-                QObject::connect(s, &Socket::headersParsed, [l, s, self]() {
-                    Val q = Val::List();
-                    auto qs = s->queryString();
-                    for (auto i = qs.constBegin(); i != qs.constEnd(); ++i) q.add(Val::List({Val::Str(i.key()), Val::Str(i.value())}));
-                    l->add(Val::List({Val::Int(8), Val::Int(int(s->method())), Val::Bytes(s->rawPath()), Val::Str(s->path()), q,
-                                       headersVal(s->headers()), Val::Int(s->contentLength())}));
-                    l->add(Val::List({Val::Int(0), Val::Int(self->avail())}));
-                });
-                QObject::connect(s, &Socket::readyRead, [l, self]() { l->add(Val::List({Val::Int(1), Val::Int(self->avail())})); });
-                QObject::connect(s, &Socket::readChannelFinished, [l, self]() { l->add(Val::List({Val::Int(2), Val::Int(self->avail())})); });
-                QObject::connect(s, &Socket::bytesWritten, [l](qint64 n) { l->add(Val::List({Val::Int(3), Val::Int(n)})); });
-                QObject::connect(s, &Socket::disconnected, [l]() { l->add(Val::List({Val::Int(9)})); });
-            }
-            break;
-        case 5: if (tcpGuard) tcp->peerDrop(); break;
-        default: throw std::runtime_error("badcase");
-        }
-    }
-    void finish()
-    {
-        // the connection goes away: the HTTP socket owns the transport once constructed
-        if (sock) delete sock.data(); else if (tcpGuard) delete tcp;
-        QCoreApplication::sendPostedEvents(nullptr, QEvent::DeferredDelete);
-    }
-};
+#include "connrunner.h"
 
 void runConnectionOn(Server *server, Val &log, const Val &ops)
 {
